@@ -203,7 +203,8 @@ def run_session(case: dict) -> dict:
         # the runners execute a session in a forked child: what the client saw travels back as the coroutine's result
         return {"client": ws.summary(), "accepted": box.get("accepted"), "wire": box["wire"], "reads": box["reads"], "before": box.get("before"),
                 "h2_error": (h2c.error if h2c is not None else None), "h2_goaway": (h2c.goaway if h2c is not None else None),
-                "h2_send_error": box.get("h2_send_error"), "unsent_after_server_close": box.get("unsent_after_server_close", False)}
+                "h2_send_error": box.get("h2_send_error"), "unsent_after_server_close": box.get("unsent_after_server_close", False),
+                "h2_stream": (None if h2c is None or sid not in h2c.streams else {"ended": bool(h2c.streams[sid]["ended"]), "reset": h2c.streams[sid]["reset"]})}
 
     scripts = [case["app"]]
     if case.get("before") and carrier == "h1":
@@ -221,4 +222,5 @@ def run_session(case: dict) -> dict:
         "access": [a[1:] for a in res["access"]], "closed_at": res["closed_at"], "handler_done": res["handler_done"],
         "h2_error": cr["h2_error"], "h2_goaway": cr["h2_goaway"], "h2_send_error": cr["h2_send_error"], "out_len": len(res["out"]),
         "stuck_session": res.get("stuck_session", False), "taps": res.get("taps"), "writes": res.get("writes"),
+        "h2_stream": cr.get("h2_stream"),
     }
